@@ -24,7 +24,6 @@ package program
 // (a well-formed one: numbers and amounts present; a monetary without an amount only arises from a balance() variable)
 //@ typeinv program.Constant: machVal(self.Inner) // C12 C08 C01 C02
 
-
 // a monetary literal of a program always has an amount
 //@ typeinv program.Monetary: self.Amount != nil // C12 C01
 
